@@ -332,6 +332,11 @@ def c02(tier, seed):
                         tier="quick" if n <= 8 else "thorough", n=n, fam="kernel", level="kernel", mem=mem_for(n),
                         covers={"reached": "SATISFIED", "low word all ones": "SATISFIED", "wrapped to zero": "SATISFIED"},
                         what="operations::next_inplace n=%d: the successor of an arbitrary well-formed table is well-formed" % n))
+    # the parser: every Ok value of from_hex_string is well-formed (harness shared with C09)
+    for h in c09_parse_specs(kinds=("s", "d"), nmax_quick=5, nmax=6):
+        if h["fam"] in ("d3", "d5"):
+            h["tier"] = "thorough"
+        out.append(h)
     return out
 
 
@@ -381,7 +386,110 @@ def c06(tier, seed):
     return out
 
 
+# ------------------------------------------------------------------------------------------------
+# C09
+# ------------------------------------------------------------------------------------------------
+
+def hex_width(n):
+    per = 16 if n >= 6 else (1 if n <= 2 else 1 << (n - 2))
+    return per * T(n)
+
+
+def c09_parse_specs(kinds=("s", "d"), nmax_quick=6, nmax=7):
+    out = []
+    for kind in kinds:
+        tname = "LutN" if kind == "s" else "Lut"
+        for n in range(0, nmax + 1):
+            fam = fam_name(kind, n)
+            w = hex_width(n)
+            q = n <= nmax_quick and (kind == "s" or n in (0, 1, 2, 4, 6))
+            out.append(spec("verif_c09", "c09.rs", "c09_parse", "c09_parse_%s" % fam, [fam, w], max(w, T(n)) + 2,
+                            tier="quick" if q else "thorough", n=n, fam=fam, mem=2 if n >= 6 else 1,
+                            timeout=1800 if n <= 6 else 3600, optional=(n >= 7),
+                            covers={"reached": "SATISFIED", "accepted": "SATISFIED",
+                                    "rejected: digit too large": "SATISFIED" if n < 2 else "UNSAT",
+                                    "rejected: non-hex character": "SATISFIED", "leading plus": "SATISFIED"},
+                            what="from_hex_string on %s n=%d: all %d bytes of the input are symbolic ASCII; Ok iff every byte is a hex digit (lower case must be accepted, upper case may be) and the value fits 2^n bits, the table is exactly the denoted one and well-formed; everything else is Err" % (tname, n, w)))
+    return out
+
+
+def c09(tier, seed):
+    out = c09_parse_specs()
+    for kind in ("s", "d"):
+        tname = "LutN" if kind == "s" else "Lut"
+        for n in range(0, 9):
+            fam = fam_name(kind, n)
+            w = hex_width(n)
+            q = (kind == "s" and n <= 6) or (kind == "d" and n in (0, 3, 6))
+            out.append(spec("verif_c09", "c09.rs", "c09_wrong_len", "c09_wrong_len_%s" % fam, [fam, w], max(w + 2, T(n)) + 2,
+                            tier="quick" if q else "thorough", n=n, fam=fam, timeout=3000, optional=(n >= 7), mem=6 if n >= 7 else 1,
+                            mem_limit_gb=30 if n >= 7 else 14,
+                            covers={"reached": "SATISFIED", "empty string": "SATISFIED", "one too long": "SATISFIED"},
+                            what="from_hex_string on %s n=%d: every length in 0..=%d other than %d with symbolic ASCII content is Err (no panic)" % (tname, n, w + 2, w)))
+            if w >= 2:
+                out.append(spec("verif_c09", "c09.rs", "c09_non_ascii", "c09_non_ascii_%s" % fam, [fam, w], max(w, T(n)) + 2,
+                                tier="quick" if (kind == "s" and n <= 7) or (kind == "d" and n in (3, 7)) else "thorough", n=n, fam=fam, timeout=1800, mem=2 if n >= 7 else 1,
+                                covers={"reached": "SATISFIED",
+                                        "character straddles the chunk boundary": "SATISFIED" if w >= 32 else "UNSAT"},
+                                what="from_hex_string on %s n=%d: a 2-byte UTF-8 character at a symbolic position in an otherwise ASCII string of the right byte length is Err and never panics (chunk slicing)" % (tname, n)))
+        for n in range(0, 6):
+            fam = fam_name(kind, n)
+            w = hex_width(n)
+            tq = "quick" if (n <= 2 and kind == "s") or (n == 2 and kind == "d") else "thorough"
+            out.append(spec("verif_c09", "c09.rs", "c09_print_hex", "c09_print_hex_%s" % fam, [fam, w], 70,
+                            tier=tq, n=n, fam=fam, timeout=3000, mem=3, optional=(n >= 4),
+                            covers={"reached": "SATISFIED", "letter digit": "SATISFIED" if n >= 2 else "UNSAT"},
+                            what="to_hex_string on %s n=%d: length is exactly %d and the digit at a symbolic position is the MSB-first nibble" % (tname, n, w)))
+            if n <= 3:
+                out.append(spec("verif_c09", "c09.rs", "c09_roundtrip", "c09_roundtrip_%s" % fam, [fam, w], 70,
+                                tier="thorough", n=n, fam=fam, timeout=3000, mem=12, mem_limit_gb=40,
+                                optional=True,
+                                what="%s n=%d: from_hex_string(to_hex_string(f)) == Ok(f) for symbolic f" % (tname, n)))
+            if n <= 3:
+                out.append(spec("verif_c09", "c09.rs", "c09_print_bin", "c09_print_bin_%s" % fam, [fam, 1 << n], 70,
+                                tier="thorough", n=n, fam=fam, timeout=3000, mem=12, mem_limit_gb=40,
+                                optional=True,
+                                what="to_bin_string on %s n=%d: 2^n digits, digit at a symbolic position is the MSB-first bit" % (tname, n)))
+    return out
+
+
+# ------------------------------------------------------------------------------------------------
+# C10
+# ------------------------------------------------------------------------------------------------
+
+def c10(tier, seed):
+    out = []
+    for n in range(0, 13):
+        fam = fam_name("s", n)
+        q = n <= 8
+        tr = "quick" if q else "thorough"
+        out.append(spec("verif_c10", "c10.rs", "c10_conv", "c10_conv_%s" % fam, [fam], max(8 * T(n), 128) + 3,
+                        tier=tr, n=n, fam=fam, mem=mem_for(n), timeout=900 if q else 3000,
+                        what="Lut%d: Lut::from(a) has %d variables and the same blocks; Lut%d::try_from is its inverse; try_from(Lut of any other size 0..13) is Err without panicking" % (n, n, n)))
+        for (lo, hi, label) in ((0, 12, "logic"), (20, 22, "flipswap"), (22, 27, "cofactors")):
+            out.append(spec("verif_c10", "c10.rs", "c10_ops", "c10_ops_%s_%s" % (label, fam), [fam, lo, hi], 8 * T(n) + 2,
+                            tier=tr, n=n, fam=fam, mem=mem_for(n, 1.5), timeout=1200 if q else 3600, optional=(n >= 11),
+                            covers={"reached": "SATISFIED", "last arm": "SATISFIED"},
+                            what="Lut%d vs Lut [%s]: not/and/or/xor (named + operator forms), value, cmp/==, set_value | flip, swap | swap_adjacent, cofactors, from_cofactors, top_decomposition, unateness give corresponding results on the same symbolic function and arguments" % (n, label)))
+        out.append(spec("verif_c10", "c10.rs", "c10_ctors", "c10_ctors_%s" % fam, [fam], max(8 * T(n), n, 8) + 2,
+                        tier=tr, n=n, fam=fam, mem=mem_for(n), timeout=900 if q else 3000,
+                        covers={"reached": "SATISFIED", "symmetric/equals/threshold with a large parameter": "SATISFIED"},
+                        what="Lut%d vs Lut: every named constructor with its parameter over all usize, and the first iterator items, coincide" % n))
+        if n <= 5:
+            out.append(spec("verif_c10", "c10.rs", "c10_strings", "c10_strings_%s" % fam, [fam, hex_width(n)], max(hex_width(n), 8) + 2,
+                            tier="quick" if n in (0, 1, 3) else "thorough", n=n, fam=fam, timeout=1800,
+                            covers={"reached": "SATISFIED", "accepted": "SATISFIED"},
+                            what="Lut%d vs Lut: from_hex_string accepts the same symbolic %d-byte strings and yields corresponding tables" % (n, hex_width(n))))
+    for (lut, ty, n) in (("Lut3", "u8", 3), ("Lut4", "u16", 4), ("Lut5", "u32", 5), ("Lut6", "u64", 6)):
+        out.append(spec("verif_c10", "c10.rs", "c10_int", "c10_int_%s" % ty, [lut, ty, n], 10,
+                        tier="quick", n=n, fam=lut,
+                        what="%s <-> %s: bit m of the integer is f(m) for all integers; both round trips are the identity" % (lut, ty)))
+    return out
+
+
 PROPS = {
+    "C10": c10,
+    "C09": c09,
     "C06": c06,
     "C02": c02,
     "C17": c17,
